@@ -634,7 +634,7 @@ func (v Value) convert(t Type) (res Value) {
 		}
 		return Int32(int32(int64(v.num)))
 	case TypeUint32:
-		return Uint32(uint32(v.num))
+		return Uint32(uint32(int64(v.num)))
 	case TypeFloat64:
 		return Float64(v.num)
 	case TypeString:
